@@ -163,6 +163,22 @@ theorem C05_cex_frame_prepared_negative_pk :
 
 example : frameKnownBad 4 true 0 0x02 [] = false := by decide +kernel
 
+/-! ### recursion depth (KF-C05-13)
+
+The nesting depth of a parsed type description — the depth of readTypeInfo's recursion, hence its
+goroutine stack use — is bounded by the number of unread body bytes and by nothing else: 2 bytes per
+level suffice (`00 20` = list<…>). Go's stack limit is not part of the model; the measured
+≥ 336 bytes of stack per level make a 4 MB body fatal (subprocess scenario `deep`). -/
+
+theorem C05_typeinfo_depth_le_body (st : St) (t : TI) (st' : St) (h : readTypeInfoTop false st = .ok t st') :
+    tiDepth t ≤ st.buf.length + 1 := C05Rows.typeInfoTop_depth false st t st' h
+
+/-- 8 bytes → depth 4: list<list<list<int>>> -/
+theorem C05_cex_typeinfo_depth :
+    (match readTypeInfoTop false { buf := [0, 32, 0, 32, 0, 32, 0, 9], alloc := 0 } with
+     | .ok t _ => tiDepth t
+     | _ => 0) = 4 := by decide +kernel
+
 /-! ### allocation -/
 
 /-- D7 (allocation): an 18-byte PREPARED body makes parsePreparedMetadata allocate 8·2^24 bytes
